@@ -4,7 +4,7 @@
 From Coq Require Import List String Ascii NArith Lia Bool Arith.
 Import ListNotations.
 Require Import P.Generated.Enums P.Spec.Values P.Generated.Tables P.Meta.Scan P.Model.Base P.Model.Token P.Model.Reader P.Model.Trace
-  P.Model.Writer P.Model.Pool P.Model.Walk P.Model.Builder P.Model.Atom P.Spec.Events P.Spec.Pool P.Spec.Valence P.Spec.Normal P.Spec.Known P.Spec.Graph P.Spec.Denote P.Spec.Roundtrip P.Checks.C18_defs P.Checks.Token_defs.
+  P.Model.Writer P.Model.Pool P.Model.Walk P.Model.Builder P.Model.Atom P.Spec.Events P.Spec.Pool P.Spec.Valence P.Spec.Normal P.Spec.Known P.Spec.Graph P.Spec.Denote P.Spec.Roundtrip P.Spec.Grammar P.Checks.C18_defs P.Checks.Token_defs.
 Local Open Scope string_scope.
 
 Fixpoint show_N_aux (fuel : nat) (n : N) (acc : string) : string :=
@@ -77,6 +77,11 @@ Definition run_reader_suite (cs : list reader_case) :=
   [("RESULT", "corr.reader_model", rr_model r); ("RESULT", "C04.follower_independent", rr_indep r);
    ("RESULT", "C06.reader_nopanic", rr_panic r); ("RESULT", "C06.known.B4_invert_unimplemented", rr_known r);
    ("RESULT", "C08.reader_conformant", rr_conf r);
+   ("RESULT", "C04.accepted_iff_in_documented_language", bad (fun c => match rc_verdict c with VPanic | VFuel => true | v => Bool.eqb (verdict_eqb v VOk) (accepts_spec (rc_in c)) end) (fun c => show (rc_in c)) cs);
+   ("RESULT", "C05.cursor_is_first_non_viable_prefix", bad (fun c => match rc_verdict c with
+        | VChar i => viable_spec (firstn i (rc_in c)) && negb (viable_spec (firstn (S i) (rc_in c))) && Nat.ltb i (List.length (rc_in c))
+        | VEol => viable_spec (rc_in c) && negb (accepts_spec (rc_in c))
+        | _ => true end) (fun c => show (rc_in c)) cs);
    ("RESULT", "C02.built_graph_is_denotation", bad (fun c => match rc_verdict c with VOk => denote_agrees (rc_events c) (rc_build c) | _ => true end) (fun c => show (rc_in c)) cs);
    ("RESULT", "C10.built_graph_is_simple", bad (fun c => built_is_simple (rc_build c)) (fun c => show (rc_in c)) cs)].
 
